@@ -236,6 +236,19 @@ func runShard(bin string, p propDef, tier string, seed int64, shard, nshards int
 	return res
 }
 
+// probeSelfCrash: the first goroutine of the dump (the faulting one) has a frame in hx.(*walker).
+func probeSelfCrash(detail string) bool {
+	i := strings.Index(detail, "\ngoroutine ")
+	if i < 0 {
+		return false
+	}
+	blk := detail[i+1:]
+	if j := strings.Index(blk, "\n\n"); j >= 0 {
+		blk = blk[:j]
+	}
+	return strings.Contains(blk, "verifharness/hx.(*walker)")
+}
+
 func crashSig(tail string) string {
 	lines := strings.Split(tail, "\n")
 	kind := "crash:unknown"
@@ -485,7 +498,19 @@ func runProp(p propDef, tier string, seed int64, only string) int {
 	starts := map[int]record{}
 	var inconclNotes []string
 	for _, r := range results {
-		all = append(all, r.crashes...)
+		for _, cr := range r.crashes {
+			// a fatal error raised while the faulting goroutine was inside the harness's own object-graph
+			// walker (reflect over live library memory) is a fault of the monitor, not of the library
+			if probeSelfCrash(cr.Detail) {
+				inconcl++
+				counts["probe_self_crash"]++
+				if len(inconclNotes) < 5 {
+					inconclNotes = append(inconclNotes, fmt.Sprintf("case %d %s: child died inside the harness's mutex probe", cr.Idx, cr.Name))
+				}
+				continue
+			}
+			all = append(all, cr)
+		}
 		counts["child_restarts"] += r.restarts
 		for _, rec := range r.recs {
 			switch rec.T {
